@@ -1,4 +1,49 @@
-//! This module contains helper functions for generating [`miette`] errors.
+//! This module contains helper functions for generating [`miette`] errors and syntax nodes.
+
+use crate::syntax::terms::{IfC, IfSort, Lit, Term};
+
+use std::rc::Rc;
+
+/// This function creates a conditional from a comparison of two terms. A comparison with the
+/// literal zero on either side is represented in the dedicated zero-comparison form (with the
+/// other term on the left), so that every spelling of such a comparison yields the same syntax
+/// tree and printing it yields a text that is parsed back to this tree.
+pub fn mk_ifc(
+    span: miette::SourceSpan,
+    sort: IfSort,
+    fst: Term,
+    snd: Term,
+    thenc: Term,
+    elsec: Term,
+) -> IfC {
+    fn is_zero(term: &Term) -> bool {
+        matches!(term, Term::Lit(Lit { lit: 0, .. }))
+    }
+    let (sort, fst, snd) = if is_zero(&snd) {
+        (sort, fst, None)
+    } else if is_zero(&fst) {
+        let flipped = match sort {
+            IfSort::Equal => IfSort::Equal,
+            IfSort::NotEqual => IfSort::NotEqual,
+            IfSort::Less => IfSort::Greater,
+            IfSort::LessOrEqual => IfSort::GreaterOrEqual,
+            IfSort::Greater => IfSort::Less,
+            IfSort::GreaterOrEqual => IfSort::LessOrEqual,
+        };
+        (flipped, snd, None)
+    } else {
+        (sort, fst, Some(Rc::new(snd)))
+    };
+    IfC {
+        span,
+        sort,
+        fst: Rc::new(fst),
+        snd,
+        thenc: Rc::new(thenc),
+        elsec: Rc::new(elsec),
+        ty: None,
+    }
+}
 
 /// Create a miette::SourceSpan from left and right byte offsets (exclusive).
 pub fn span(l: usize, r: usize) -> miette::SourceSpan {
